@@ -4,6 +4,7 @@ import SlipVerif.Lemmas.Reader
 import SlipVerif.Lemmas.ReaderInv
 import SlipVerif.Lemmas.ReaderHalt
 import SlipVerif.Lemmas.ReaderMono
+import SlipVerif.Lemmas.ReaderCont
 /-
   C02 — reading is a function of the text, not of its delivery.
 
@@ -231,14 +232,42 @@ theorem readOne_is_first_form (T : Tables) (cfg : Cfg) (bs : List Byte) (o : Obj
   · cases hone
   · cases hone
 
-/- `readOne_position` in full — "reading `text.drop pos` from the initial state yields exactly the
-   remaining forms of `readAll text`" — is NOT proved here (it needs an equivalence of the state
-   reached after the first form with the initial state up to the fields a fresh read overwrites:
-   `base`, `sharpNum`, `rn`, `rcnt`, `nextMode`, `line`). The correspondence harness checks it on
-   every generated text instead (entries `ReadOne(form-by-form)` and `read-from-string(form-by-form)`).
-   Proved parts: `readOne_position_partial` (the position lies within the text),
-   `readOne_ignores_rest` (it depends only on the bytes up to the end of the form) and
-   `readOne_is_first_form` (the form is the first form of the whole-text read). -/
+/-- **One-form position, continuation form** (`readOne_position` in full). If `readOne` returns the
+    form `o` and the position `pos`, then reading the whole text is: `o`, followed by whatever a
+    *fresh* reader reads from `text.drop pos` — the same objects in the same order, the same final
+    position (shifted by `pos`), the same error and the same objects finished before the error. So
+    re-reading from the reported position never loses, repeats or re-tokenises anything, and nothing
+    a reader remembers from the first form (`base`, `sharpNum`, the rune accumulator, `nextMode`,
+    token / string bytes) can influence what follows. Hypotheses on the tables (both decided for the
+    regenerated tables in Theorems/GenC02: `step_total`, `cont_ok`): every entry lies in the modelled
+    matrix, and `contOK` — `sharpNum` is read only in `sharpNumMode`, `closeParen` sits only in
+    `valueMode` on a byte the one-form exit counts to the form, a token is not ended by a `"`/`|` that
+    opens a string, a string is ended only by `"`/`|`. -/
+theorem readOne_continuation (T : Tables) (hT : tablesOK T = true) (hC : contOK T = true) (cfg : Cfg)
+    (bs : List Byte) (o : Obj) (pos : Nat) (h : readOne T cfg bs = .ok (o, pos)) :
+    readAll T { cfg with one := false } bs =
+      (readAll T { cfg with one := false } (bs.drop pos)).shift [o] pos :=
+  readOne_cont T hT hC cfg bs o pos h
+-- (concrete instances with the regenerated tables: `GenC02.readOne_continuation_gen` and its samples)
+
+/-- … and so the objects of the whole text are the first form followed by the objects of the rest. -/
+theorem readOne_then_rest (T : Tables) (hT : tablesOK T = true) (hC : contOK T = true) (cfg : Cfg)
+    (bs : List Byte) (o : Obj) (pos : Nat) (rest : List Obj) (p : Nat)
+    (h : readOne T cfg bs = .ok (o, pos))
+    (hrest : readAll T { cfg with one := false } (bs.drop pos) = .ok rest p) :
+    readAll T { cfg with one := false } bs = .ok (o :: rest) (pos + p) := by
+  rw [readOne_continuation T hT hC cfg bs o pos h, hrest]
+  rfl
+
+/-- … and a text whose rest stops inside a form (or is malformed) is reported with the same error,
+    after the same objects: truncation is not hidden by reading form by form. -/
+theorem readOne_then_error (T : Tables) (hT : tablesOK T = true) (hC : contOK T = true) (cfg : Cfg)
+    (bs : List Byte) (o : Obj) (pos : Nat) (e : Err) (done : List Obj)
+    (h : readOne T cfg bs = .ok (o, pos))
+    (hrest : readAll T { cfg with one := false } (bs.drop pos) = .err e done) :
+    readAll T { cfg with one := false } bs = .err e (o :: done) := by
+  rw [readOne_continuation T hT hC cfg bs o pos h, hrest]
+  rfl
 
 /-! ### histories on one stream (Model/ReaderHist.lean): `read` mixed with character operations -/
 
